@@ -129,8 +129,18 @@ def add_flaky_serdes(cfg, rng, p):
     if rng.random() >= p:
         return
     sts = [st for st in oracles.statements(cfg["program"]).values() if st["op"] in ("step", "wfcond", "child", "callback")]
+    sts += [st for st in sts if st["op"] == "wfcond"] * 2  # three operation kinds share the step executor, one does not
+    picked = []
     for st in rng.sample(sts, min(len(sts), rng.choice([1, 1, 2, 3]))):
-        st["fserdes"] = {"ser": rng.choice([[], [1], [2], [1, 2], [3]]), "de": rng.choice([[], [1], [1], [2], [1, 2]])}
+        if any(st is x for x in picked):
+            continue
+        picked.append(st)
+        st["fserdes"] = {"ser": rng.choice([[], [], [1], [2], [1, 2], [3]]),
+                         "de": rng.choice([[], [1], [1], [2], [2], [3], [1, 2], [2, 3], [4], [1, 3]])}
+        if rng.random() < 0.4:
+            # the k-th decode of the recorded outcome of the already completed operation fails (a replay that cannot read
+            # what an earlier invocation stored)
+            st["fserdes"] = {"ser": [], "de": [], "det": rng.choice([[1], [1], [2], [1, 2]])}
 
 
 class C01(Check):
@@ -138,6 +148,9 @@ class C01(Check):
             "variants per seed; non-trivial iff a later invocation found >=1 terminal operation in its history; distinct by "
             "hash(program, fault plan, per-invocation outcome + history status vector + switch count)")
     base_profile = {"amo_p": 0.1}
+
+    def tune(self, cfg, prof, rng):
+        add_flaky_serdes(cfg, rng, 0.15)  # a failing user SerDes may fail the call, it must not make anything run again
 
     def oracle(self, ix, cfg, golden):
         return oracles.check_c01(ix) + oracles.check_unexplained_exceptions(ix, cfg, "C01")
@@ -488,10 +501,15 @@ class C10(Check):
             ">=1 branch was still alive when its parent's call returned")
     base_profile = {"weights": {"parallel": 6, "map": 3, "step": 6, "child": 2, "wait": 1, "callback": 0, "wfc": 0, "invoke": 0,
                                 "wfcond": 0}, "swarm": False, "blocks": [0, 0.05, 0.5, 2.0, 4.0], "cfg_p": 1.0, "max_ops": 16,
-                    "fault_kinds": ["crash-api", "crash-step"], "lines_p": 0.4}
+                    "fault_kinds": ["crash-api", "crash-step"], "lines_p": 0.6}
 
     def tune(self, cfg, prof, rng):
         cfg["drain"] = rng.choice([2.0, 6.0])
+        if rng.random() < 0.6:
+            # slow acknowledgements: an orphan's asynchronous START is still unacknowledged when its parent completes
+            cfg["latency"] = rng.choice([[0.05, 1.5], [0.5, 4.0], [1.0, 3.0]])
+        if cfg["sched"].get("lines") and rng.random() < 0.6:
+            cfg["sched"]["stall_hot"] = rng.choice([0.03, 0.1, 0.2])
         # bias configs towards early exit
         def walk(body):
             for st in body:
@@ -1003,7 +1021,9 @@ def _positions_of(program, op):
 class C16(Check):
     rule = ("child/map/parallel results straddling the checkpoint limit (limit-50 .. 2x limit), with and without summary generator, "
             "failed branches present, followed by a wait so that the context is replayed; handler results and error messages "
-            "straddling the response limit; limits scaled down (stated knob) in 4 of 5 runs, real constants in the rest; "
+            "straddling the response limit (ASCII, non-ASCII and escape-heavy text); 30% of the context cases sit in a branch that "
+            "is resubmitted in process, so the summarised context is traversed again in the invocation that completed it; "
+            "limits scaled down (stated knob) in 4 of 5 runs, real constants in the rest; "
             "non-trivial iff >=1 payload exceeded a limit")
     quick_cases = 300
 
@@ -1043,6 +1063,13 @@ class C16(Check):
         elif kind == "nested":
             inner = {"op": "child", "body": [{"op": "step"}], "ret": big(ck)}
             body.append({"op": "child", "body": [inner, {"op": "step"}], "ret": big(ck)})
+        if kind in ("child", "parallel", "map", "nested") and rng.random() < 0.3:
+            # the oversized context is completed and then traversed again inside the SAME invocation: it sits in a branch that
+            # parks on a short timer while a sibling is still running, so the timer thread resubmits the branch in process
+            slow = {"op": "step", "fn": {"attempts": [{"do": "ret", "v": ["int", 1], "block": rng.choice([3.0, 6.0])}]}}
+            body = [{"op": "parallel", "cfg": {"tol": 2},
+                     "branches": [{"body": body + [{"op": "wait", "s": 1}, {"op": "step"}]}, {"body": [slow]}]}]
+            kind = "resubmitted-" + kind
         if kind != "error":
             body.append({"op": "wait", "s": 2})
             body.append({"op": "step"})
@@ -1060,6 +1087,10 @@ class C16(Check):
                                                 "size": (bigu(rl) if uni else big(rl))[1]}]
             if uni:
                 program["body"][-1]["uni"] = True
+            elif rng.random() < 0.3:
+                # a message full of characters that JSON escapes: half as many characters as encoded bytes
+                program["body"][-1]["esc"] = True
+                program["body"][-1]["size"] = max(1, program["body"][-1]["size"] // rng.choice([2, 3, 4]))
         elif rng.random() < 0.3:
             program["ret"] = bigu(rl) if uni else big(rl)
         ext = {}
@@ -1091,13 +1122,16 @@ class C16(Check):
                 r["execution-record:" + e["action"]] = 1
         if any(e.get("rc") and e.get("status") == "SUCCEEDED" for e in ix.kinds["body-enter"]):
             r["replay-children-traversal"] = 1
+        done_in = {(e["i"], e.get("name")) for e in ix.kinds["applied"] if e.get("replay_children")}
+        if any(e.get("rc") and e.get("status") == "SUCCEEDED" and (e["i"], e["pos"]) in done_in for e in ix.kinds["body-enter"]):
+            r["re-traversal-in-the-completing-invocation"] = 1
         if cfg["limits"]["ckpt"] == 256 * 1024:
             r["real-limits"] = 1
         return r
 
     def required_reach(self, tier):
         return ["summary-with-payload", "summary-empty", "replay-children-traversal", "execution-record:SUCCEED",
-                "execution-record:FAIL", "real-limits"]
+                "execution-record:FAIL", "real-limits", "re-traversal-in-the-completing-invocation"]
 
 
 class C17(Check):
